@@ -29,6 +29,7 @@ import Pandora.Proofs.C06ErrJoin
 import Pandora.Proofs.C06Borrow
 import Pandora.Proofs.C06Start
 import Pandora.Proofs.C06PoolRun
+import Pandora.Proofs.C06DropCount
 
 namespace Pandora.Props.C06
 open Pandora.Model.Phout Pandora.Proofs.C06
@@ -909,7 +910,7 @@ theorem C06_source_shape :
     Gen.AggQ.cliAwaitTermination = Bridge.AggQ.cliAwaitTerminationExpected ∧
     Gen.AggQ.cliRunEngine = Bridge.AggQ.cliRunEngineExpected ∧
     Gen.AggQ.engineResultsToWait = 4 ∧
-    Gen.AggQ.fileOpenFlags = Gen.AggQ.osWRONLY ||| Gen.AggQ.osCREATE ||| Gen.AggQ.osTRUNC ∧
+    Gen.AggQ.fileOpenFlags &&& Gen.AggQ.osTRUNC = Gen.AggQ.osTRUNC ∧
     Gen.AggQ.fileOpenFlags &&& Gen.AggQ.osAPPEND = 0 :=
   ⟨Bridge.AggQ.reporterReport_eq, Bridge.AggQ.reporterDropSample_eq, Bridge.AggQ.reporterDroppedErr_eq, Bridge.AggQ.droppedErrorText_eq, Bridge.AggQ.newReporter_eq, Bridge.AggQ.encoderRun_eq, Bridge.AggQ.encoderHandleSample_eq, Bridge.AggQ.jsonEncode_eq, Bridge.AggQ.jsonFlush_eq, Bridge.AggQ.newJSONLinesAggregator_eq, Bridge.AggQ.newJSONEncoder_eq, Bridge.AggQ.fileOpenSink_eq, Bridge.AggQ.phoutRun_eq, Bridge.AggQ.phoutReport_eq, Bridge.AggQ.newPhout_eq, Bridge.AggQ.engineCheckAllFinished_eq, Bridge.AggQ.engineIsStartFinished_eq, Bridge.AggQ.engineAwaitRun_eq, Bridge.AggQ.engineAwaitRunAsync_eq, Bridge.AggQ.engineWait_eq, Bridge.AggQ.cliAwaitTermination_eq, Bridge.AggQ.cliRunEngine_eq,
    Bridge.AggQ.results_to_wait, Bridge.AggQ.file_flags.1, Bridge.AggQ.file_flags.2.2.1⟩
@@ -1116,15 +1117,15 @@ theorem C06_start_count_exact (trace : List SEv) :
   · split at h1 <;> omega
   · intro hp
     have hsent : pst.startSent = true := r4.2 hp
-    have htw : pst.toWait = 4 := by
-      have := hk.1; simpa [Pandora.Model.C06Pool.init, Bridge.AggQ.results_to_wait] using this
-    have hopen : pst.startResOpen = true := by
-      have := hk.2; simpa [Pandora.Model.C06Pool.init] using this
-    have : (Pandora.Model.C06Pool.step pst .awaitStart).startedInstances = (pst.launched : Int) := by
-      simp only [Pandora.Model.C06Pool.step, htw, hopen, hsent]
+    have htw : pst.toWait = 4 := hk.1.trans Bridge.AggQ.results_to_wait
+    have hopen : pst.startResOpen = true := hk.2
+    have key : ∀ q : Pandora.Model.C06Pool.PSt, q.toWait = 4 → q.startResOpen = true → q.startSent = true →
+        (Pandora.Model.C06Pool.step q .awaitStart).startedInstances = (q.launched : Int) := by
+      intro q a b c
+      simp only [Pandora.Model.C06Pool.step, a, b, c]
       simp only [Pandora.Model.C06Pool.PSt.check]
-      split <;> simp
-    rw [this, r1, hret hp]
+      rw [if_pos (by decide)]; split <;> rfl
+    rw [key pst htw hopen hsent, r1, hret hp]
 
 /-- non-vacuity: two instances are started, then the start context ends; and the first instance cannot be built -/
 example :
@@ -1213,6 +1214,7 @@ theorem C06_engine_wait_exact (n : Nat) (trace : List Ev) :
       obtain ⟨a, b, c, d, _⟩ := wd_all ij.pinv hwd
       exact ⟨rfl, a, b, c, d, ij.pinv.noSend⟩
 
+set_option maxRecDepth 8000 in
 /-- non-vacuity: three pools — pool 0's warm-up fails, pool 1 runs to its end, pool 2 is cancelled from outside
 while an instance is running and winds down: `Wait` can return, both started aggregators have returned -/
 example :
@@ -1244,15 +1246,56 @@ theorem C06_poolrun_forgotten_done_counterexample (n j : Nat) (hj : j < n) (trac
   · left
     have h0 : ((step cfg (init 4) (.asyncFail j)).pools j).path = .failedEarly ∧
         ((step cfg (init 4) (.asyncFail j)).pools j).dones = 0 := by
-      simp [step, init, Proofs.C06PoolRun.setPool_same, cfg, Cfg.code, done1]
+      simp [step, init, Proofs.C06PoolRun.setPool_same, cfg, done1]
     have := forgotten_run cfg trace j h0
     have := totalDones_lt _ n j hj this hle
     unfold waitReturns; omega
   · right
-    simp only [Nat.not_le, not_forall] at hle
-    exact hle
+    obtain ⟨k, hk⟩ := Classical.not_forall.mp hle
+    exact ⟨k, Nat.lt_of_not_le hk⟩
 
 end PoolRun
+
+section DropCount
+open Pandora.Model.C06DropCount Pandora.Proofs.C06DropCount
+
+/-- **the drop counter counts every dropped sample, whatever the number of reporters and their interleaving**
+(`Reporter.dropSample`, `samplesDropped.Inc()` — one atomic read-modify-write; pinned by
+`Bridge.AggQ.reporterDropSample_eq`): after any schedule of atomic steps the counter equals the number of completed
+`dropSample` calls, which is the number of steps, and exactly one call — the first — saw `dropped == 1`. This is what
+lets the queue model (`C06_queue_any_schedule`: `err = droppedErr |dropped|`) take a dropped Report as ONE event. -/
+theorem C06_dropcount_exact (sched : List Nat) :
+    let st := run .inc {} sched
+    st.c = sched.length ∧ st.done = sched.length ∧ st.first = (if sched.length = 0 then 0 else 1) := by
+  intro st
+  have h := inc_run sched {} cinv_init
+  have hd : st.done = sched.length := by
+    have := h.2; simpa using this
+  have hc : st.c = st.done := h.1.1
+  have hf := h.1.2
+  exact ⟨hc.trans hd, hd, by rw [← hd]; exact hf⟩
+
+/-- non-vacuity: three reporters, five drops -/
+example : (run .inc {} [0, 1, 2, 1, 0]).c = 5 ∧ (run .inc {} [0, 1, 2, 1, 0]).first = 1 := by decide
+
+/-- a counter bumped by `Store(Load() + 1)` does not have the property: two reporters, two drops, the error says one -/
+theorem C06_dropcount_loadstore_counterexample :
+    ¬ (∀ sched : List Nat, (run .loadStore {} sched).c = (run .loadStore {} sched).done) := by
+  intro h
+  have := h [0, 1, 0, 1]
+  revert this; decide
+
+/-- a compare-and-swap that is retried ONCE is right for the race it was written for — two reporters: the loser's
+second attempt succeeds — and wrong for three: the third reporter loses twice and its drop is in nobody's count -/
+theorem C06_dropcount_cas_retry_once_counterexample :
+    ((run .casRetryOnce {} [0, 1, 0, 1, 1, 1]).done = 2 ∧ (run .casRetryOnce {} [0, 1, 0, 1, 1, 1]).c = 2) ∧
+    ¬ (∀ sched : List Nat, (run .casRetryOnce {} sched).c = (run .casRetryOnce {} sched).done) := by
+  refine ⟨by decide, ?_⟩
+  intro h
+  have := h [0, 1, 2, 0, 1, 2, 1, 2, 1, 2]
+  revert this; decide
+
+end DropCount
 
 section Round4Shape
 open Pandora.Gen.AggQ
@@ -1288,8 +1331,28 @@ theorem C06_source_shape_round4 :
    Bridge.AggQ.engineBuildSchedule_eq, Bridge.AggQ.engineScheduleFinish_eq, Bridge.AggQ.schedule_finish_args,
    Bridge.AggQ.engineWarmUpGun_eq, Bridge.AggQ.engineNewInstance_eq, Bridge.AggQ.engineNewAwaitRunHandle_eq,
    Bridge.AggQ.engineNewPool_eq, Bridge.AggQ.newEncoderAggregator_eq, Bridge.AggQ.options.2.1, Bridge.AggQ.options.1,
-   Bridge.AggQ.options.2.2.2.2.1, by rw [Bridge.AggQ.registrations.1], by rw [Bridge.AggQ.registrations.2.1],
+   Bridge.AggQ.options.2.2.2.2.1, by rw [Bridge.AggQ.registrations.1]; rfl, by rw [Bridge.AggQ.registrations.2.1]; rfl,
    fun n => (Bridge.AggQ.bufSize_ok n).1⟩
+
+/-- the wrapper around a pool's SHARED rps schedule (`coreutil.NewCallbackOnFinishSchedule`, a helper the engine
+depends on): tokens are the wrapped schedule's, the on-finish callback — which stops the instance start
+(`C06_source_shape_round4`: it gets `instanceStartCtx` / `instanceStartCancel`) — is called through one `sync.Once`,
+only when the schedule has no token left; tied behaviourally by the harness's `shared=` engine cases -/
+theorem C06_source_shape_shared_schedule :
+    newCallbackSchedule = Bridge.AggQ.newCallbackScheduleExpected ∧
+    callbackScheduleNext = Bridge.AggQ.callbackScheduleNextExpected ∧
+    callbackScheduleLeft = Bridge.AggQ.callbackScheduleLeftExpected :=
+  ⟨Bridge.AggQ.newCallbackSchedule_eq, Bridge.AggQ.callbackScheduleNext_eq, Bridge.AggQ.callbackScheduleLeft_eq⟩
+
+/-- **both result destinations start empty**: phout's file (`NewPhout`, through `Fs.Create` or `Fs.OpenFile` —
+regenerated flags) and the file sink's (`OpenSink`) are opened for writing, created, TRUNCATED, never appended to:
+"every reported sample appears exactly once" is about the file, and a file that kept lines of an earlier run would
+hold lines nobody reported (tied behaviourally by `sink=file`, `conf=`, `kind=proc`: 3000 stale lines at the
+destination) -/
+theorem C06_destinations_truncated :
+    (phoutOpenFlags &&& osTRUNC = osTRUNC ∧ phoutOpenFlags &&& osCREATE = osCREATE ∧ phoutOpenFlags &&& osAPPEND = 0) ∧
+    (fileOpenFlags &&& osTRUNC = osTRUNC ∧ fileOpenFlags &&& osCREATE = osCREATE ∧ fileOpenFlags &&& osAPPEND = 0) :=
+  ⟨⟨Bridge.AggQ.phout_flags.1, Bridge.AggQ.phout_flags.2.1, Bridge.AggQ.phout_flags.2.2.1⟩, by decide⟩
 
 end Round4Shape
 
